@@ -5,9 +5,16 @@ schema == expected_default(T) computed from the IDL alone (pv/gengen.py: lit_val
 semantics, independent of pilota's lowering); the encoding of T::default() reference-decodes (every protocol)
 to the same value and conforms to the schema (declared wire types, no unknown/mistyped fields, size() exact);
 decoding the one-byte empty struct gives that same value whenever it succeeds, and fails exactly when a
-required field has no default."""
-import re
-from .. import gengen, genref, genrun
+required field has no default.
+
+Literal level (fam/gen/coq/Lit.v, LitSpec.v; theorems C20_literal_meaning, C20_default_is_idl, ...): for EVERY field
+default of the corpus the extracted model of Context::lit_into_ty / lit_as_rvalue (dispatching on the arm tables
+regenerated from context.rs) is evaluated on the literal AST and compared THREE ways: model value = Python lit_value
+(independent implementation of the IDL semantics) = the field of the Debug rendering of the emitted T::default();
+plus the Coq specification LitSpec.lit_value, the const flag, and that the corpus satisfies the hypotheses of the
+theorems (class_free_schema, lits_typed)."""
+import os, re
+from .. import core, gengen, genref, genrun
 from ..gencheck import have_property_file, run_check
 
 PROP = 'C20'
@@ -49,7 +56,28 @@ def evaluate(gb, case, out):
         return [(why, None)]
     bad = []
     if got != case['want']:
-        bad.append(('T::default() is not the IDL default (%s)' % genrun.diff_text(got, case['want']), None))
+        # name the field(s): the replay then carries a concrete field, its IDL literal and both values
+        fields = []
+        d = sch.types[tname]
+        if d['kind'] == 'struct':
+            v, why2 = genrun.debug_value(gb, cfg, ty, m.group(1))
+            exp = gengen.expected_default(sch, tname)
+            if not why2 and isinstance(v, dict):
+                for f in d['fields']:
+                    a = gengen.show(sch, f['ty'], v[f['id']], nan_canon=True) if f['id'] in v else '<absent>'
+                    b = gengen.show(sch, f['ty'], exp[f['id']], nan_canon=True) if f['id'] in exp else '<absent>'
+                    if a != b:
+                        fields.append(dict(field=f['name'], field_id=f['id'], idl_type=gengen.ty_idl_lowered(f['ty']),
+                                           idl_default=(gengen.lit_idl(f['lit']) if f['lit'] is not None else None),
+                                           default_holds=a[:300], idl_means=b[:300]))
+        case['failing_fields'] = fields[:8]
+        if fields:
+            f0 = fields[0]
+            bad.append(('T::default() is not the IDL default: field %s.%s (id %d, %s = %s) holds `%s`, the IDL means `%s`%s'
+                        % (tname, f0['field'], f0['field_id'], f0['idl_type'], f0['idl_default'], f0['default_holds'][:120],
+                           f0['idl_means'][:120], '' if len(fields) == 1 else ' (+%d more fields)' % (len(fields) - 1)), None))
+        else:
+            bad.append(('T::default() is not the IDL default (%s)' % genrun.diff_text(got, case['want']), None))
     if m.group(3) is None:
         bad.append(('encoding T::default() failed: ' + m.group(2)[:100], None))
     else:
@@ -86,8 +114,136 @@ def evaluate(gb, case, out):
     return bad
 
 
+# ------------------------------------------------------------------ literal level
+
+def literal_fields(gb, cases):
+    """[(cfg, type name, field dict, case)] for every field with an IDL default of the struct types among the cases
+    (one case per (cfg, type): the first protocol)"""
+    sch = gb.schema
+    seen, out = set(), []
+    for c in cases:
+        key = (c['cfg'], c['type'])
+        d = sch.types.get(c['type'])
+        if key in seen or d is None or d['kind'] != 'struct':
+            continue
+        seen.add(key)
+        for f in d['fields']:
+            if f['lit'] is not None and ('field_id' not in c or c['field_id'] == f['id']):
+                out.append((c['cfg'], c['type'], f, c))
+    return out
+
+
+LIT_RE = re.compile(r'LIT (ok ([CN]) (.*?)|panic \w+|err \w+) WT ([01]) CLASS ([\w-]+) SPEC (.*)$')
+LDFLT_RE = re.compile(r'LDFLT MODEL (ok (.*?)|panic \w+|err \w+) PROJ (.*?) SPEC (.*)$')
+
+
+def literal_phase(chk, gb, cases, outs, stats):
+    """-> oracle failures [(case, why, cls, impl line)]; model / specification disagreements are reported here as
+    correspondence violations (no failing input) unless an oracle failure was found"""
+    sch = gb.schema
+    runner = genrun.FAM.runner
+    fields = literal_fields(gb, cases)
+    stats.update(default_literals=len(set((t, f['id']) for _, t, f, _ in fields)), compared=0, in_proven_domain=0,
+                 model_ran=False)
+    if not fields:
+        return []
+    out_by_case = {id(c): o for c, o in zip(cases, outs)}
+    failing, corr = [], []
+    # ---- the model
+    mres, dres, sline = {}, {}, None
+    if os.path.exists(runner) and have_property_file(PROP):
+        lpath = os.path.join(gb.out_dir, 'lschema.txt')
+        open(lpath, 'w').write(gengen.lschema_txt(sch))
+        keys = sorted(set((t, f['id']) for _, t, f, _ in fields))
+        tys = sorted(set(t for t, _ in keys))
+        lines = ['lschema'] + ['lit %s %d' % k for k in keys] + ['ldflt %s' % t for t in tys]
+        mo = core.run_lines(runner, lines, args=[os.path.join(gb.out_dir, 'schema.txt'), lpath])
+        sline = mo[0] or ''
+        for k, o in zip(keys, mo[1:1 + len(keys)]):
+            mres[k] = o or ''
+        for t, o in zip(tys, mo[1 + len(keys):]):
+            dres[t] = o or ''
+        stats['model_ran'] = True
+        m = re.match(r'LSCHEMA class_free ([01]) lits_typed ([01])', sline)
+        if not m:
+            corr.append('model runner (literal schema): %s' % sline[:120])
+        else:
+            stats['class_free_schema'], stats['lits_typed'] = int(m.group(1)), int(m.group(2))
+            if m.group(1) != '1' or m.group(2) != '1':
+                corr.append('the corpus is outside the hypotheses of C20_literal_meaning / C20_default_is_idl although the '
+                            'generator ran (class_free_schema=%s lits_typed=%s)' % (m.group(1), m.group(2)))
+    # ---- per field: Python meaning, emitted Default, model
+    for cfg, tname, f, c in fields:
+        ty = ('ref', tname)
+        want = gengen.show(sch, f['ty'], f['default'], nan_canon=True)
+        o = out_by_case.get(id(c)) or ''
+        m = DFLT_RE.match(o)
+        got = None
+        if m:
+            v, why = genrun.debug_value(gb, cfg, ty, m.group(1))
+            if not why and isinstance(v, dict) and f['id'] in v:
+                got = gengen.show(sch, f['ty'], v[f['id']], nan_canon=True)
+            elif not why:
+                got = '<absent>'
+        fc = dict(c, field=f['name'], field_id=f['id'], literal=gengen.lit_idl(f['lit']), idl_type=gengen.ty_idl_lowered(f['ty']))
+        stats['compared'] += 1
+        if got is not None and got != want:
+            failing.append((fc, 'field %s.%s (id %d) = %s: T::default() holds `%s`, the IDL default means `%s`'
+                            % (tname, f['name'], f['id'], gengen.lit_idl(f['lit'])[:80], got[:200], want[:200]), None, o))
+        mo = mres.get((tname, f['id']))
+        if mo is None:
+            continue
+        mm = LIT_RE.match(mo)
+        if not mm:
+            corr.append('model runner on %s.%s: %s' % (tname, f['name'], mo[:120]))
+            continue
+        if mm.group(4) == '1' and mm.group(5) == 'none':
+            stats['in_proven_domain'] += 1
+        mval = genrun.canon_nan_text(mm.group(3)) if mm.group(2) else None
+        if mval is None:
+            corr.append('the literal model predicts `%s` for %s.%s = %s but the generator produced code'
+                        % (mm.group(1), tname, f['name'], gengen.lit_idl(f['lit'])[:60]))
+            continue
+        if got is not None and mval != got:
+            corr.append('literal model vs emitted Default, %s.%s = %s: model `%s`, implementation `%s`'
+                        % (tname, f['name'], gengen.lit_idl(f['lit'])[:60], mval[:120], got[:120]))
+        if mval != want and (got is None or got == want):
+            corr.append('literal model vs Python lit_value, %s.%s = %s: model `%s`, Python `%s`'
+                        % (tname, f['name'], gengen.lit_idl(f['lit'])[:60], mval[:120], want[:120]))
+        if (mm.group(2) == 'C') != bool(f['const']):
+            corr.append('const flag of %s.%s: model %s, gengen.is_const_default %s' % (tname, f['name'], mm.group(2), f['const']))
+        spec = genrun.canon_nan_text(mm.group(6))
+        if spec != want:
+            corr.append('the two specifications disagree on %s.%s = %s: LitSpec.lit_value `%s`, Python lit_value `%s`'
+                        % (tname, f['name'], gengen.lit_idl(f['lit'])[:60], spec[:120], want[:120]))
+    # ---- whole Default values: ImplDefaultPlugin model, Defaults.default_of over the projected schema, expected_default
+    for tname, o in sorted(dres.items()):
+        mm = LDFLT_RE.match(o)
+        want = gengen.show(sch, ('ref', tname), gengen.expected_default(sch, tname), nan_canon=True)
+        if not mm or not mm.group(2):
+            corr.append('model runner, Default of %s: %s' % (tname, o[:120]))
+            continue
+        three = [genrun.canon_nan_text(x) for x in (mm.group(2), mm.group(3), mm.group(4))]
+        if any(x != want for x in three):
+            which = ['Lit.rust_default', 'Defaults.default_of (Lit.proj)', 'LitSpec.expected_default']
+            bad = [w for w, x in zip(which, three) if x != want]
+            corr.append('Default of %s: %s differ(s) from Python expected_default (%s)'
+                        % (tname, ', '.join(bad), genrun.diff_text(three[which.index(bad[0])], want)))
+    stats['model_mismatches'] = len(corr)
+    if corr and not failing:
+        c0 = fields[0][3]
+        chk.violation('correspondence literal-lowering broken: extracted model of lit_into_ty (fam/gen/coq/Lit.v) / specification '
+                      'and the emitted code disagree (%d: %s) but the property oracle found no failing field'
+                      % (len(corr), corr[0]),
+                      dict(kind='correspondence', correspondence='literal lowering (fam/gen/coq/Lit.v vs pilota-build context.rs)',
+                           case=c0, details=corr[:20]), no_input=True)
+    return failing
+
+
 def run(chk, replay=None):
+    stats = {}
     return run_check(chk, replay, PROP, gen_cases, evaluate,
+                     post=lambda gb, cases, outs: literal_phase(chk, gb, cases, outs, stats),
                      rule="every emitted type (structs incl. synthesised service types, unions, enums, typedefs) of the corpus "
                           "(document dflt: defaults of every kind of the property text -- ints, bool from int, double from int, "
                           "decimal/exponent doubles, strings in both quote styles with escapes, binary, enum by name and by number, "
@@ -95,4 +251,5 @@ def run(chk, replay=None):
                           "typedef'd targets, btree containers; x required/optional/default requiredness) x {binary, binary_le, "
                           "compact, unchecked} x builder configs; non-trivial = the struct has at least one IDL default",
                      extra_dist=lambda cases, outs: dict(structs_with_defaults=len(set(c['type'] for c in cases if c['nontrivial'])),
-                                                         default_fields=sum(1 for c in cases if c['nontrivial'])))
+                                                         default_fields=sum(1 for c in cases if c['nontrivial']),
+                                                         literal_level=dict(stats)))
